@@ -21,116 +21,16 @@ HOOKS = {
 NOTES = ("One driver (./check <ID> --tier quick|thorough | --replay <file>), one Go harness module. Every check rebuilds its "
          "test binary from /repo's working tree. See DESIGN.md.")
 
-SPECS["C01"] = {
-    "pkg": "c01",
-    "tests": [
-        {"name": "TestProfile", "quick": 24000, "thorough": 1600000, "shards_quick": 8, "shards_thorough": 16,
-         "timeout": 1500},
-    ],
-    "rule": ("rapid generator over const/line/step/once configs (whole-second, 100ms-, ms-, us- and ns-granular durations; "
-             "integer, tenth, arbitrary-float and zero rates; random start instant; built through config.DecodeAndValidate "
-             "or the constructors); each schedule is drained completely and judged against the exact closed-form integral "
-             "(math/big). Non-trivial = at least 2 tokens and (fractional-second duration, or from != to, or a zero end-point, "
-             "or >= 2 step levels); distinct = distinct config tuples (hash of the case)."),
-    "floors": {"TestProfile/fractional_duration": 0.25, "TestProfile/line_decreasing": 0.05,
-               "TestProfile/zero_endpoint": 0.05, "TestProfile/via_config": 0.3, "TestProfile/step_multi_level": 0.02},
-    "manifest": {
-        "technique": "property-based testing (rapid) against an exact closed-form integral oracle (math/big)",
-        "text": ("Generated const/line/step/once configurations (fractional durations, zero rates, both construction paths) are "
-                 "drained completely; every token instant, the token count, Left() and the finish time are compared with the "
-                 "exact integral of the configured rate. Random search with shrinking; no exhaustiveness claimed."),
-        "note": ("Trusts math/big and the stated float tolerances (count off by one only when the exact integral is within 1e-9 "
-                 "relative of an integer; |F(t_k)-k| <= rate*2ns + 1e-9*max(1,k))."),
-    },
-    "assumptions": ["float tolerance: a token count one off the exact floor is accepted only when the exact integral is within "
-                    "1e-9 (relative) of an integer; token instants are judged forward, |F(t_k)-k| <= rate*2ns + 1e-9*max(1,k)",
-                    "step levels within 1e-9 of `to` are accepted either way when `from` is not an integer"],
-}
 
-SPECS["C02"] = {
-    "pkg": "c02",
-    "tests": [
-        {"name": "TestSeqFinite", "quick": 4000, "thorough": 400000, "shards_quick": 2, "shards_thorough": 8, "timeout": 1500},
-        {"name": "TestConcFinite", "quick": 600, "thorough": 40000, "shards_quick": 3, "shards_thorough": 8, "timeout": 1500,
-         "race_thorough": True},
-        {"name": "TestSeqUnlimited", "quick": 400, "thorough": 16000, "shards_quick": 4, "shards_thorough": 16, "timeout": 1500},
-        {"name": "TestConcUnlimited", "quick": 400, "thorough": 16000, "shards_quick": 4, "shards_thorough": 16, "timeout": 1500},
-        {"name": "TestInterleavings", "quick": 6000, "thorough": 600000, "shards_quick": 3, "shards_thorough": 16, "timeout": 1500},
-    ],
-    "rule": ("rapid-generated schedule trees (depth <= 3, <= 5 children; leaves once/const/line/step/instance_step/unlimited, zero-token "
-             "and empty parts anywhere) judged against manual chaining of separately drained parts. TestSeqFinite: scripted Next/Left "
-             "by one caller in virtual time, optional on-finish wrapper, config or constructor path. TestConcFinite: 2-8 free-running "
-             "goroutines, 4 rounds per case, multiset + linearisability windows for Left. TestSeqUnlimited/TestConcUnlimited: real time, "
-             "1-4 ms parts, callers wait for each token as coreutil.Waiter does. TestInterleavings: 2-3 callers whose interleaving at the "
-             "composite's lock-free yield points (hook) is dictated by a drawn choice list. Non-trivial = >= 2 token-bearing parts and "
-             "(nesting depth >= 2 or a zero-token part [seq]; any [conc]; an unknown-length part that is not first [unlimited]; "
-             "a lock-upgrade point reached [interleavings]); distinct = hash of tree+script(+choices)."),
-    "floors": {"TestSeqUnlimited/unknown_not_first": 0.15, "TestSeqFinite/zero_token_part": 0.2, "TestConcFinite/left_callers": 0.3,
-               "TestConcFinite/callers_ge_4": 0.3, "TestInterleavings/next_upgrade_contended": 0.1,
-               "TestInterleavings/left_upgrade_point": 0.05, "TestSeqUnlimited/left_negative_seen": 0.1},
-    "manifest": {
-        "technique": "model-based property testing (rapid): manual-chaining reference, linearisability windows, harness-scheduled interleavings at hook yield points",
-        "text": ("Schedule trees are generated and compared with a reference that drains each elementary part alone from the finish "
-                 "of its predecessor: exact token sequence sequentially, exact multiset + per-caller monotonicity + Left() windows "
-                 "under 2-8 concurrent callers, interval oracles in real time for unlimited parts, and deterministic enumeration-by-"
-                 "sampling of interleavings at the composite's lock-upgrade points. Exploration: interleavings are sampled, not exhausted."),
-        "note": ("Trusts the elementary parts (judged by C01) as reference; goroutine ids parsed from runtime.Stack; real-time sub-checks "
-                 "compare only measured instants that bracket each call, so load can make a sample inconclusive, never wrong. "
-                 "Interleaving control exists only at the hook's four yield points, on flat composites."),
-    },
-    "assumptions": ["callers of trees with unlimited parts wait for a token's time before drawing the next (coreutil.Waiter behaviour)",
-                    "Left() may stay negative while an unlimited part ahead has not been started, even if its window has passed on the clock"],
-}
+def _load():
+    import glob
+    import os
+    here = os.path.join(os.path.dirname(os.path.abspath(__file__)), "specdir")
+    for path in sorted(glob.glob(os.path.join(here, "C*.py"))):
+        ns = {}
+        with open(path) as f:
+            exec(compile(f.read(), path, "exec"), ns)
+        SPECS[os.path.basename(path)[:-3]] = ns["SPEC"]
 
-SPECS["C03"] = {
-    "pkg": "c03",
-    "tests": [
-        {"name": "TestAccounting", "quick": 640, "thorough": 48000, "shards_quick": 8, "shards_thorough": 16, "timeout": 2400,
-         "race_thorough": True},
-    ],
-    "rule": ("rapid-generated single-pool configurations run through the real engine.Engine with recording doubles: 1-8 instances "
-             "(startup once/const/instance_step), shared or per-instance finite profile tree (<= 100 tokens, pre-started 0-3 s in the "
-             "past so late tokens are discarded without sleeping), ammo bound around the token count or unbounded, discard_overflow "
-             "on/off, shot durations 0/50us/1ms, acquire delays, provider queue 0/1/64; each case is executed 3 times. Non-trivial = "
-             ">= 2 instances and min(tokens, ammo) >= instances; distinct = hash of the case."),
-    "floors": {"TestAccounting/ammo_lt_tokens": 0.1, "TestAccounting/ammo_eq_tokens": 0.1, "TestAccounting/per_instance": 0.3,
-               "TestAccounting/shared": 0.3, "TestAccounting/discards": 0.03, "TestAccounting/composite_profile": 0.3},
-    "manifest": {
-        "technique": "property-based testing (rapid) of the real engine with recording doubles; conservation-law oracle over the recorded history",
-        "text": ("The real engine runs generated pool configurations against doubles that record every Acquire/Release/Shoot/Report; "
-                 "after Engine.Run returned nil the history must satisfy fired+discarded = min(tokens, ammo), each item released "
-                 "exactly once and never used after release, unfired <= instances-1 (shared) / 0 (per-instance), request = response = "
-                 "fired, InstanceStart = InstanceFinish. Interleavings are those the Go scheduler produced (3 runs per case; -race in thorough)."),
-        "note": "Trusts the doubles (internal/fake) and the schedule tree reference (C01/C02) for the token count; goroutine interleavings are sampled, not controlled.",
-    },
-    "assumptions": ["token count of the profile is taken from the C02 reference chain of its parts"],
-}
 
-SPECS["C05"] = {
-    "pkg": "c05",
-    "tests": [
-        {"name": "TestOutcome", "quick": 960, "thorough": 64000, "shards_quick": 8, "shards_thorough": 16, "timeout": 3000,
-         "race_thorough": True, "replay_repeat": 50},
-    ],
-    "rule": ("rapid-generated runs of the real engine with 1-3 pools of recording doubles; per run at most one pool gets a fault plan: "
-             "provider (before first ammo / after k items / after the engine cancelled it at the very end), aggregator (at start / after "
-             "k reports / at the very end), gun factory (call i, call 0 = warm-up probe), Bind, WarmUp, schedule factory (shared or "
-             "per-instance call i), shot panic at shot j, each with a generated delay before the faulty return; caller cancel before "
-             "Run or 0-10 ms into it; profiles once/const/60 s-long, bounded/unbounded ammo, 1-4 instances; every case runs 3 times. "
-             "Non-trivial = a fault was actually reached or the cancel arrived while Run was in progress; distinct = hash of the case."),
-    "floors": {"TestOutcome/fault_provider": 0.05, "TestOutcome/fault_aggregator": 0.05, "TestOutcome/fault_sched": 0.02,
-               "TestOutcome/fault_factory": 0.02, "TestOutcome/fault_bind": 0.02, "TestOutcome/fault_warmup": 0.02,
-               "TestOutcome/fault_shot_panic": 0.01, "TestOutcome/cancel_in_progress": 0.1, "TestOutcome/pools_gt_1": 0.2,
-               "TestOutcome/provider_fault_at_end": 0.02, "TestOutcome/aggregator_fault_at_end": 0.02},
-    "manifest": {
-        "technique": "fault-injection property testing (rapid) of the real engine with recording doubles; outcome oracle from which faults were actually reached",
-        "text": ("Generated fault/cancel plans are run against the real engine; the doubles record which injected fault actually returned "
-                 "its error. Result must be nil iff nothing failed and no in-progress cancel cut work short, must carry a reached fault "
-                 "or the context error otherwise; afterwards Engine.Wait returns, provider/aggregator Run returned, InstanceStart = "
-                 "InstanceFinish, bound closable guns are closed exactly once and no engine goroutine survives. Orderings of the engine's "
-                 "result channels are those the Go scheduler produced over 3 runs per case (plus -race in thorough)."),
-        "note": ("Hang verdicts use a 20 s deadline (normal runs take < 50 ms). Guns whose Bind failed and the warm-up probe gun are not "
-                 "required to be closed. A nil result after an in-progress cancel is accepted only if the history shows all work was done."),
-    },
-    "assumptions": ["a fault counts as reached when the double's faulty call actually returned the error"],
-}
+_load()
